@@ -648,8 +648,13 @@ PLUR_SHAPES = [(2, 1), (3, 1), (3, 2), (4, 1), (4, 2), (4, 3), (5, 1), (5, 4), (
 NAMES = ["Ann", "Bob", "Cy", "Dee", "Eve", "Flo", "Gus"]
 
 
+# falsy / numeric-looking / case- and blank-variant / nested candidate names (round 9)
+NAME_FAMILIES = [["0", "", "a", "A", " a", "aa", "b"], ["1", "01", "1.0", "10", "1 ", "True", "None"]]
+
+
 def gen_contest(rng, i, stream, used_limits):
-    cid = f"c{i}"
+    NAMES = rng.choice(NAME_FAMILIES) if rng.chance(0.12) else globals()["NAMES"]
+    cid = f"c{i}" if not rng.chance(0.06) else ["0", "", " c"][i % 3]
     lims = [l for l in LIMITS if l not in used_limits] or LIMITS
     rl = rng.choice(lims)
     used_limits.append(rl)
